@@ -97,6 +97,20 @@ def enum_units(tier, seed):
             ir.append({"k": "data", "d": "dl", "es": [L(0x100000 + i), ["id", f"lb_big_{(i // 500) * 500}"]]})
         ir += [{"k": "org", "a": org + 0x100000}, {"k": "label", "n": "lb_tail"}, {"k": "data", "d": "dl", "es": [["id", "lb_tail"], ["id", "lb_big_0"]]}]
         cases.append({"rom": rom, "files": {}, "defines": {}, "define_forms": [], "sub": rom == "low", "ir": ir})
+    # labels in unusual places: a named scope written in two pieces (and the same scope name again inside a block and inside a macro
+    # applied twice), a label with the name of a scope, labels in a taken and in an untaken branch, in an included file
+    lab = lambda n: {"k": "label", "n": n}
+    db = lambda v: {"k": "data", "d": "db", "es": [L(v)]}
+    for rom, org in (("low", 0x018000), ("high", 0xC18000)):
+        ir = [{"k": "org", "a": org}, {"k": "scope", "n": "sc_t", "b": [lab("lb_init"), db(1)]}, lab("lb_mid"), db(2),
+              {"k": "scope", "n": "sc_t", "b": [db(3), lab("lb_more"), db(4)]}, {"k": "data", "d": "dl", "es": [["id", "sc_t.lb_init"], ["id", "sc_t.lb_more"]]},
+              {"k": "block", "b": [{"k": "scope", "n": "sc_t", "b": [lab("lb_in_block"), db(5)]}, {"k": "scope", "n": "sc_t", "b": [lab("lb_in_block2"), db(6)]}]},
+              {"k": "macro", "n": "m_s", "ps": ["p_sx"], "b": [{"k": "scope", "n": "sc_m", "b": [lab("lb_in_macro"), {"k": "data", "d": "db", "es": [["id", "p_sx"]]}]}]},
+              {"k": "call", "n": "m_s", "args": [L(7)]}, {"k": "call", "n": "m_s", "args": [L(8)]},
+              {"k": "if", "c": L(1), "t": [lab("lb_taken"), db(9)], "e": [lab("lb_not_taken"), db(10)]},
+              {"k": "include", "f": "part1.s", "b": [lab("lb_inc"), db(11), {"k": "scope", "n": "sc_t", "b": [lab("lb_inc_scope"), db(12)]}]},
+              {"k": "org", "a": org + 0x10000}, lab("sc_m"), db(13)]
+        cases.append({"rom": rom, "files": {}, "defines": {}, "define_forms": [], "sub": rom == "low", "ir": ir})
     return {"units": [{"cases": [c]} for c in cases], "exhaustive": False}
 
 
